@@ -3,6 +3,7 @@
 # changed files with VERIF_PATCH_DIR, run ./check <ID> quick and record whether the check reports a violation.
 cd /verif
 export GOFLAGS=-mod=mod GOPROXY=off GOSUMDB=off GOTOOLCHAIN=local
+export VERIF_CONFIRM_LIMIT=${VERIF_CONFIRM_LIMIT:-2}   # one or two confirmed violations are enough to call a mutant detected
 WT=$(mktemp -d /tmp/mutwt-XXXX); rmdir $WT
 git -C /repo worktree add --detach $WT >/dev/null 2>&1 || exit 2
 trap 'git -C /repo worktree remove --force $WT >/dev/null 2>&1' EXIT
